@@ -115,8 +115,73 @@ pub fn run_entry(name: &str, a: &[u64], i: &[u8]) -> Option<String> {
     })
 }
 
+static BLOB: [u8; 64] = [0x5a; 64];
+
+/// a message of handshake kind k (index in the enum's declaration order) with contents chosen by `var`
+fn hs_msg(k: u64, sid: bool, var: u64) -> TlsMessageHandshake<'static> {
+    let v = (var % 3) as usize;
+    let b: &'static [u8] = &BLOB[..v * 7];
+    let r: &'static [u8] = &BLOB[..32];
+    let ext: Option<&'static [u8]> = if v == 0 { None } else { Some(b) };
+    let sidv: Option<&'static [u8]> = if sid { Some(&BLOB[..1 + 15 * v]) } else { None };
+    use TlsMessageHandshake::*;
+    match k {
+        0 => HelloRequest,
+        1 => ClientHello(TlsClientHelloContents::new(0x0301 + v as u16, r, sidv, vec![TlsCipherSuiteID(v as u16)], vec![], ext)),
+        2 => ServerHello(TlsServerHelloContents::new(0x0303, r, sidv, 0x2f + v as u16, 0, ext)),
+        3 => ServerHelloV13Draft18(TlsServerHelloV13Draft18Contents { version: TlsVersion(0x7f12), random: r, cipher: TlsCipherSuiteID(0x1301), ext }),
+        4 => NewSessionTicket(TlsNewSessionTicketContent { ticket_lifetime_hint: var as u32, ticket: b }),
+        5 => EndOfEarlyData,
+        6 => HelloRetryRequest(TlsHelloRetryRequestContents { version: TlsVersion(0x0304), cipher: TlsCipherSuiteID(v as u16), ext }),
+        7 => Certificate(TlsCertificateContents { cert_chain: (0..v).map(|_| RawCertificate { data: b }).collect() }),
+        8 => ServerKeyExchange(TlsServerKeyExchangeContents { parameters: b }),
+        9 => CertificateRequest(TlsCertificateRequestContents { cert_types: vec![v as u8], sig_hash_algs: if v == 1 { None } else { Some(vec![0x0401]) }, unparsed_ca: vec![] }),
+        10 => ServerDone(b),
+        11 => CertificateVerify(b),
+        12 => ClientKeyExchange(match v { 0 => TlsClientKeyExchangeContents::Unknown(b), 1 => TlsClientKeyExchangeContents::Dh(b), _ => TlsClientKeyExchangeContents::Ecdh(ECPoint { point: b }) }),
+        13 => Finished(b),
+        14 => CertificateStatus(TlsCertificateStatusContents { status_type: v as u8, blob: b }),
+        15 => NextProtocol(TlsNextProtocolContent { selected_protocol: b, padding: b }),
+        _ => KeyUpdate(v as u8),
+    }
+}
+
+const STATES: [TlsState; 25] = [
+    TlsState::None, TlsState::ClientHello, TlsState::AskResumeSession, TlsState::ResumeSession, TlsState::ServerHello,
+    TlsState::Certificate, TlsState::CertificateSt, TlsState::ServerKeyExchange, TlsState::ServerHelloDone,
+    TlsState::ClientKeyExchange, TlsState::ClientChangeCipherSpec, TlsState::CRCertRequest, TlsState::CRHelloDone,
+    TlsState::CRCert, TlsState::CRClientKeyExchange, TlsState::CRCertVerify, TlsState::NoCertSKE,
+    TlsState::NoCertHelloDone, TlsState::NoCertCKE, TlsState::PskHelloDone, TlsState::PskCKE,
+    TlsState::SessionEncrypted, TlsState::Alert, TlsState::Finished, TlsState::Invalid,
+];
+
+fn run_states(toks: &[String]) -> String {
+    let mut st = STATES[toks.get(0).and_then(|s| s.parse::<usize>().ok()).unwrap_or(0) % 25];
+    let mut out = String::from("(states");
+    for t in &toks[1..] {
+        let a: Vec<u64> = t.split(',').map(|x| x.parse().unwrap_or(0)).collect();
+        let g = |k: usize| a.get(k).copied().unwrap_or(0);
+        let (msg, dir) = match g(0) {
+            0 => (TlsMessage::Handshake(hs_msg(g(1), g(2) != 0, g(3))), g(4) != 0),
+            1 => (TlsMessage::ChangeCipherSpec, g(1) != 0),
+            2 => (TlsMessage::Alert(TlsMessageAlert { severity: TlsAlertSeverity(g(1) as u8), code: TlsAlertDescription(g(2) as u8) }), g(3) != 0),
+            3 => (TlsMessage::ApplicationData(TlsMessageApplicationData { blob: &BLOB[..(g(1) % 5) as usize] }), g(2) != 0),
+            _ => (TlsMessage::Heartbeat(TlsMessageHeartbeat { heartbeat_type: TlsHeartbeatMessageType(g(1) as u8), payload_len: g(1) as u16, payload: &BLOB[..(g(1) % 5) as usize] }), g(2) != 0),
+        };
+        match tls_state_transition(st, &msg, dir) {
+            Ok(s) => { st = s; out.push(' '); out.push_str(&format!("{:?}", s)); }
+            Err(_) => { st = TlsState::Invalid; out.push_str(" Err"); }
+        }
+    }
+    out.push(')');
+    out
+}
+
 pub fn run_history(name: &str, toks: &[String]) -> String {
-    "(noentry)".to_string()
+    match name {
+        "states" => run_states(toks),
+        _ => "(noentry)".to_string(),
+    }
 }
 
 pub fn command(args: &[String]) -> i32 {
